@@ -71,11 +71,9 @@ func NewOSFileSystemLoader(dirPath string) *OSFileSystemLoader {
 // using the OS's path seperator and joining it with the loader's directory path.
 func (l *OSFileSystemLoader) Exists(templatePath string) bool {
 	templatePath = filepath.Join(l.dir, filepath.FromSlash(templatePath))
+	// a regular file (os.Stat follows symbolic links); not a directory, socket, pipe or device
 	stat, err := os.Stat(templatePath)
-	if err == nil && !stat.IsDir() {
-		return true
-	}
-	return false
+	return err == nil && stat.Mode().IsRegular()
 }
 
 // Open returns the result of `os.Open()` on the file located using the same logic as Exists().
